@@ -2,8 +2,14 @@
 Props/C15.lean — every finite input yields a finite field in bounded time (exact-arithmetic part).
 Proved: for the kernels that are plain algebra, off the documented singular set every divisor
 is non-zero (so in exact arithmetic the closed form is defined): Dipole off its position, Sphere
-in both branches, straight segment normalisation for distinct end points.
-/- FULL: all classes, IEEE double, termination of the cel/el3 iterations.  Not representable in
+in both branches, straight segment normalisation for distinct end points.  Termination of the two
+scalar Bulirsch loops of special_cel.py in exact arithmetic with an explicit iteration bound
+(`celIter_terminates` for `cel_iter0`, `cel0_terminates` for `cel0`), hence of `BHJM_circle` for
+every input (`bhjmCircle_terminates`: the wrapper's masks cover the set where the loop would not
+exit, `circle_masks_cover_singular`); positivity of every divisor along the `cel_iter0` loop;
+termination of the batch loop `cel_iterv` and of the dispatcher `cel_iter` (`celIterV_terminates`).
+/- FULL: all classes, IEEE double, termination of the el3 iterations and of the vectorised `celv`
+   (per entry the `cel0` loop run at least once, no `kc == 0` guard; not modelled).  Not representable in
    exact real arithmetic: overflow/underflow (r**5 for r < 1e-65, sizes 1e9), NaN from inf−inf,
    float non-termination of `while |g−qc| >= qc·1e-8`.  The special-set oracle evaluates the real
    code at every boundary set ±1,2,4 ulp, denormal offsets, zero-size/zero-excitation sources and
@@ -11,6 +17,7 @@ in both branches, straight segment normalisation for distinct end points.
 -/
 import MagpyVerif.Lemmas.KernReal
 import MagpyVerif.Lemmas.SegmentBS
+import MagpyVerif.Lemmas.CelAGM
 namespace MagpyVerif.C15
 open MagpyVerif MagpyVerif.Kern
 
@@ -59,5 +66,215 @@ theorem segment_defined_off_line (p1 p2 po : V3 ℝ)
     0 < L ∧ 0 < Kern.norm (qo - p4) ∧ 0 < Kern.norm (V3.cross (q2 - q1) (qo - p4)) ∧
       0 < Kern.norm (qo - q1) ∧ 0 < Kern.norm (qo - q2) :=
   SegBS.segment_divisors p1 p2 po hoff
+
+/-! ### termination of the Bulirsch `cel` loops (special_cel.py) in exact arithmetic -/
+
+/-- `cel_iter0(qc, p, g, cc, ss, em, kk)`: whenever the loop variables `em` and `kk` are positive
+(no condition on `qc`, `g`, `p`, `cc`, `ss`), the `while fabs(g - qc) >= qc*1e-8` loop exits after
+at most `celFuel em kk = ⌈log₂(⌈D·1e8⌉ + 1)⌉ + 2` tests, `D = |em − 2√kk| / min(em, 2√kk)` the
+relative gap of the arithmetic–geometric-mean pair after the first pass: the model returns a
+value for every fuel from that bound on. -/
+theorem celIter_terminates (qc p g cc ss em kk : ℝ) (hem : 0 < em) (hkk : 0 < kk) (fuel : ℕ)
+    (hfuel : celFuel em kk ≤ fuel) : (celIter fuel qc p g cc ss em kk).isSome :=
+  celIter_isSome_mono hfuel (celIter_isSome_celFuel qc p g cc ss em kk hem hkk)
+
+example : (celIter (celFuel 3 2) (2 : ℝ) 3 1 1 1 3 2).isSome :=
+  celIter_terminates 2 3 1 1 1 3 2 (by norm_num) (by norm_num) _ le_rfl
+
+/-- the bound is of the stated size: it is defined as `Nat.clog 2 (⌈D / 1e-8⌉₊ + 1) + 2` -/
+theorem celFuel_eq (em kk : ℝ) :
+    celFuel em kk = Nat.clog 2 (⌈|em - 2 * √kk| / min em (2 * √kk) / (1 / 100000000)⌉₊ + 1) + 2 := rfl
+
+/-- the value computed does not depend on the fuel: once `celIter` returns `v`, it returns `v` for
+every larger fuel (so `some v` is *the* value of the Python loop) -/
+theorem celIter_fuel_irrelevant (n k : ℕ) (qc p g cc ss em kk v : ℝ)
+    (h : celIter n qc p g cc ss em kk = some v) : celIter (n + k) qc p g cc ss em kk = some v :=
+  celIter_fuel_mono n k qc p g cc ss em kk v h
+
+example : celIter (1 + 7) (1 : ℝ) 2 1 5 6 2 1 = some (Real.pi / 2 * (6 + 5 * 2) / (2 * (2 + 2))) := by
+  apply celIter_fuel_irrelevant
+  rw [celIter]
+  simp only [Kern.n, ofNat_real, le_real, abs_real, pi_real, Nat.cast_one, Nat.cast_ofNat,
+    decide_eq_true_eq]
+  rw [if_neg (by norm_num)]
+
+/-- the hypothesis `0 < kk` of `celIter_terminates` cannot be dropped: started with `kk = 0` and
+`qc ≤ 0` (the Circle call on the wire, `q = 0`: the hang fixed in af5dcd4) the loop never exits -/
+theorem celIter_never_exits_at_zero (fuel : ℕ) (qc p g cc ss em : ℝ) (hqc : qc ≤ 0) :
+    celIter fuel qc p g cc ss em 0 = none :=
+  celIter_none_of_kk_zero fuel qc p g cc ss em hqc
+
+example : celIter 1000 (0 : ℝ) 1 1 0 0 1 0 = none := celIter_never_exits_at_zero _ _ _ _ _ _ _ le_rfl
+
+/-- in the range `1e-40 ≤ q ≤ 1e40` the bound for the Circle / `cel0` start (`g = 1`) is at most
+200, the fuel the driver uses -/
+theorem celFuel1_small {q : ℝ} (h1 : 1 / 10 ^ 40 ≤ q) (h2 : q ≤ 10 ^ 40) :
+    celFuel1 q (1 / 100000000) ≤ 200 := celFuel1_le_200 h1 h2
+
+example : celFuel1 1 (1 / 100000000) = 1 := by simp [celFuel1, agmSteps]
+
+/-- `current_circle_Hfield` for one row (`circleHcyl`, radius `r0`, observer `(r, z)` in cylinder
+coordinates): for `r0 ≠ 0`, `r / r0 ≥ 0` and the observer not on the wire (`¬(z = 0 ∧ r = r0)`)
+— then `q2 > 0`, the loop variable `kk = q = √q2` is positive — both `cel_iter` calls terminate:
+the model returns a value for every fuel ≥ `circleFuel r0 r z` -/
+theorem circle_cel_terminates (r0 r z i0 : ℝ) (hr0 : r0 ≠ 0) (hr : 0 ≤ r / r0)
+    (hwire : ¬ (z = 0 ∧ r = r0)) (fuel : ℕ) (hfuel : circleFuel r0 r z ≤ fuel) :
+    (circleHcyl fuel r0 r z i0).isSome :=
+  circleHcyl_isSome fuel r0 r z i0 (circleQ2_pos hr0 hr hwire) hfuel
+
+example : (circleHcyl (circleFuel 1 2 0) (1 : ℝ) 2 0 1).isSome :=
+  circle_cel_terminates 1 2 0 1 (by norm_num) (by norm_num) (by norm_num) _ le_rfl
+
+/-- the masks of `BHJM_circle` cover the singular set of the general branch: a row with
+`mask1` (`r0 = 0`) and `mask2` (`|r − r0| < 1e-15·r0 ∧ |z| < 1e-15·r0`) both false has `q2 > 0`
+(`r ≥ 0` holds by construction, `r = √(x² + y²)`; `mask3` is not needed for termination) -/
+theorem circle_masks_cover_singular (d : ℝ) (x : V3 ℝ) (h1 : ¬ (|d / 2| = 0))
+    (h2 : ¬ (|√(x.x * x.x + x.y * x.y) - (|d / 2|)| < 1 / 1000000000000000 * |d / 2| ∧
+      |x.z| < 1 / 1000000000000000 * |d / 2|)) :
+    0 < circleQ2 |d / 2| (√(x.x * x.x + x.y * x.y)) x.z :=
+  circle_masks_imply_q2_pos d x h1 h2
+
+example : 0 < circleQ2 |(2 : ℝ) / 2| (√((3 : ℝ) * 3 + 4 * 4)) 1 :=
+  circle_masks_cover_singular 2 ⟨3, 4, 1⟩ (by norm_num) (by
+    intro h
+    have := h.2
+    norm_num at this)
+
+/-- Circle, general branch (masks 1–3 false: `r0 ≠ 0`, not on the wire, `r ≠ 0`): every divisor of
+`current_circle_Hfield` — `r0`, `x0 = z² + (r+1)²`, `r` (also under `sqrt`), `q2`, `p = 1 + q` —
+is positive (normalised `r = r/r0`, `z = z/r0`), so in exact arithmetic the closed form is defined
+on all of the general branch; and the on-axis branch's divisor `(z² + r0²)^(3/2)` is positive -/
+theorem circle_defined_off_singular (d : ℝ) (x : V3 ℝ) (h1 : ¬ (|d / 2| = 0))
+    (h2 : ¬ (|√(x.x * x.x + x.y * x.y) - (|d / 2|)| < 1 / 1000000000000000 * |d / 2| ∧
+      |x.z| < 1 / 1000000000000000 * |d / 2|))
+    (h3 : ¬ (√(x.x * x.x + x.y * x.y) = 0)) :
+    let r0 := |d / 2|
+    let r := √(x.x * x.x + x.y * x.y) / r0
+    let z := x.z / r0
+    0 < r0 ∧ 0 < r ∧ 0 < √r ∧ 0 < z * z + (r + 1) * (r + 1) ∧ 0 < circleQ2 r0 (√(x.x * x.x + x.y * x.y)) x.z ∧
+      0 < 1 + √(circleQ2 r0 (√(x.x * x.x + x.y * x.y)) x.z) ∧
+      0 < (x.z * x.z + r0 * r0) * √(x.z * x.z + r0 * r0) := by
+  intro r0 r z
+  have hr0 : 0 < r0 := lt_of_le_of_ne (abs_nonneg _) (Ne.symm h1)
+  have hr : 0 < r := div_pos (lt_of_le_of_ne (Real.sqrt_nonneg _) (Ne.symm h3)) hr0
+  have hq := circle_masks_imply_q2_pos d x h1 h2
+  have hw : 0 < x.z * x.z + r0 * r0 := by nlinarith [mul_self_nonneg x.z, mul_pos hr0 hr0]
+  refine ⟨hr0, hr, Real.sqrt_pos.2 hr, by nlinarith [mul_self_nonneg z], hq, ?_, ?_⟩
+  · have := Real.sqrt_nonneg (circleQ2 r0 (√(x.x * x.x + x.y * x.y)) x.z); linarith
+  · exact mul_pos hw (Real.sqrt_pos.2 hw)
+
+example : 0 < circleQ2 |(2 : ℝ) / 2| (√((3 : ℝ) * 3 + 4 * 4)) 0 :=
+  (circle_defined_off_singular 2 ⟨3, 4, 0⟩ (by norm_num) (by
+    intro h
+    have h5 : √((3 : ℝ) * 3 + 4 * 4) = 5 := by
+      rw [show (3 : ℝ) * 3 + 4 * 4 = 5 ^ 2 by norm_num]; exact Real.sqrt_sq (by norm_num)
+    have := h.1
+    simp only [h5] at this
+    norm_num at this) (by
+    intro h
+    have h5 : √((3 : ℝ) * 3 + 4 * 4) = 5 := by
+      rw [show (3 : ℝ) * 3 + 4 * 4 = 5 ^ 2 by norm_num]; exact Real.sqrt_sq (by norm_num)
+    rw [h5] at h; norm_num at h)).2.2.2.2.1
+
+/-- `BHJM_circle` for one row, every field, every diameter, current and observer (in exact
+arithmetic no input is excluded): the special cases return at once and in the general branch
+both cel iterations exit; the model returns a value for every fuel ≥ `circleFuelX d x` -/
+theorem bhjmCircle_terminates (f : Field) (d cur : ℝ) (x : V3 ℝ) (fuel : ℕ)
+    (hfuel : circleFuelX d x ≤ fuel) : (bhjmCircle fuel f d cur x).isSome :=
+  bhjmCircle_isSome fuel f d cur x hfuel
+
+example : (bhjmCircle (circleFuelX 2 ⟨3, 4, 1⟩) .B (2 : ℝ) 1 ⟨3, 4, 1⟩).isSome :=
+  bhjmCircle_terminates .B 2 1 ⟨3, 4, 1⟩ _ le_rfl
+
+/-- a value returned by `celIter` is the return expression of `cel_iter0` evaluated at the first
+state of the orbit of the loop body (`celRowStep`) at which the `while` condition (`celRowCont`)
+fails, and the loop body was executed on exactly the earlier states of the orbit -/
+theorem celIter_value_spec (fuel : ℕ) (s : CelRow ℝ) (v : ℝ)
+    (h : celIter fuel s.qc s.p s.g s.cc s.ss s.em s.kk = some v) :
+    ∃ m, m < fuel ∧ (∀ j, j < m → celRowCont (celRowStep^[j] s) = true) ∧
+      celRowCont (celRowStep^[m] s) = false ∧ v = celRowOut (celRowStep^[m] s) :=
+  celIterRow_some_spec fuel s v h
+
+/-- along the whole orbit of the `cel_iter0` loop body started with `p, em, kk > 0`, the divisor
+`p` of the loop body and the divisor `em·(em + p)` of the return expression are non-zero (even
+positive): every division executed is defined -/
+theorem celIter_divisors_nonzero (s : CelRow ℝ) (hp : 0 < s.p) (hem : 0 < s.em) (hkk : 0 < s.kk)
+    (n : ℕ) : (celRowStep^[n] s).p ≠ 0 ∧
+      (celRowStep^[n] s).em * ((celRowStep^[n] s).em + (celRowStep^[n] s).p) ≠ 0 := by
+  obtain ⟨h1, h2, _⟩ := celRowIterate_pos hp hem hkk n
+  exact ⟨h1.ne', (by positivity :
+    0 < (celRowStep^[n] s).em * ((celRowStep^[n] s).em + (celRowStep^[n] s).p)).ne'⟩
+
+/-- the Circle calls `cel_iter(q, p, 1, cc, ss, p, q)` with `p = 1 + q`, `q > 0` start in a state
+meeting the hypotheses of `celIter_divisors_nonzero` -/
+example (q cc ss : ℝ) (hq : 0 < q) (n : ℕ) :
+    (celRowStep^[n] (⟨q, 1 + q, 1, cc, ss, 1 + q, q⟩ : CelRow ℝ)).p ≠ 0 :=
+  (celIter_divisors_nonzero ⟨q, 1 + q, 1, cc, ss, 1 + q, q⟩ (by positivity) (by positivity) hq n).1
+
+/-- `cel_iterv` on a batch (every entry is stepped until `np.any(fabs(g - qc) >= qc*1e-8)` is
+false): if every row has `em, kk > 0` the loop exits after at most `celFuelV rows` (the largest of
+the rows' bounds `celFuel em kk`) tests — a row that has met its exit test keeps meeting it while
+the others are still iterating (`CelInv.exit_stable`) -/
+theorem celIterV_terminates (rows : List (CelRow ℝ)) (hpos : ∀ s ∈ rows, 0 < s.em ∧ 0 < s.kk)
+    (fuel : ℕ) (hfuel : celFuelV rows ≤ fuel) : (celIterV fuel rows).isSome :=
+  celIterV_isSome_celFuelV rows hpos fuel hfuel
+
+example : (celIterV (celFuelV [⟨2, 3, 1, 1, 1, 3, 2⟩, ⟨1, 1, 1, 0, 1, 5, 7⟩])
+    [(⟨2, 3, 1, 1, 1, 3, 2⟩ : CelRow ℝ), ⟨1, 1, 1, 0, 1, 5, 7⟩]).isSome :=
+  celIterV_terminates _ (by
+    intro s hs
+    simp only [List.mem_cons, List.not_mem_nil, or_false] at hs
+    rcases hs with rfl | rfl <;> norm_num) _ le_rfl
+
+/-- `cel_iter` as written (scalar loop on each entry for fewer than 15 entries, result unused,
+then `cel_iterv` on the batch) terminates under the same hypothesis with the same bound -/
+theorem celIterDispatch_terminates (rows : List (CelRow ℝ))
+    (hpos : ∀ s ∈ rows, 0 < s.em ∧ 0 < s.kk) (fuel : ℕ) (hfuel : celFuelV rows ≤ fuel) :
+    (celIterDispatch fuel rows).isSome :=
+  celIterDispatch_isSome_celFuelV rows hpos fuel hfuel
+
+example : (celIterDispatch (celFuelV [⟨2, 3, 1, 1, 1, 3, 2⟩]) [(⟨2, 3, 1, 1, 1, 3, 2⟩ : CelRow ℝ)]).isSome :=
+  celIterDispatch_terminates _ (by
+    intro s hs
+    simp only [List.mem_cons, List.not_mem_nil, or_false] at hs
+    subst hs; norm_num) _ le_rfl
+
+/-- on a batch of one row `cel_iterv` is `cel_iter0` (so the one-row Circle model `circleHcyl`,
+written with the scalar loop, is the code path `cel_iter → cel_iterv` for a single observer) -/
+theorem celIterV_single (fuel : ℕ) (s : CelRow ℝ) :
+    celIterV fuel [s] = (celIter fuel s.qc s.p s.g s.cc s.ss s.em s.kk).map (fun v => [v]) :=
+  celIterV_singleton fuel s
+
+/-- `cel0(kc, p, c, s)` (the scalar routine of the Cylinder kernels, errtol 1e-6): for `kc ≠ 0`
+and all `p, c, s` the `while abs(g - k) > g*errtol` loop exits after at most
+`celFuel1 |kc| 1e-6 = ⌈log₂(⌈D·1e6⌉ + 1)⌉ + 1` tests, `D = |1 − |kc|| / min(1, |kc|)` -/
+theorem cel0_terminates (kc p c s : ℝ) (hkc : kc ≠ 0) (fuel : ℕ)
+    (hfuel : celFuel1 |kc| (1 / 1000000) ≤ fuel) : (cel0 fuel kc p c s).isSome := by
+  obtain ⟨v, hv⟩ := Option.isSome_iff_exists.mp (cel0_isSome_celFuel1 kc p c s hkc)
+  obtain ⟨k, rfl⟩ := Nat.exists_eq_add_of_le hfuel
+  rw [cel0_fuel_mono _ k kc p c s v hv]; rfl
+
+example : (cel0 (celFuel1 |(-3 : ℝ)| (1 / 1000000)) (-3 : ℝ) (-2) 1 1).isSome :=
+  cel0_terminates (-3) (-2) 1 1 (by norm_num) _ le_rfl
+
+/-- `cel0` fails (`raise RuntimeError("FAIL")`, `none` in the model) exactly for `kc = 0`, given
+enough fuel -/
+theorem cel0_none_iff (kc p c s : ℝ) (fuel : ℕ) (hfuel : celFuel1 |kc| (1 / 1000000) ≤ fuel) :
+    cel0 fuel kc p c s = none ↔ kc = 0 := by
+  constructor
+  · intro h
+    by_contra hkc
+    have := cel0_terminates kc p c s hkc fuel hfuel
+    rw [h] at this
+    exact absurd this (by simp)
+  · rintro rfl
+    exact cel0_eq_none_of_zero fuel p c s
+
+example : cel0 5 (0 : ℝ) 1 1 1 = none := (cel0_none_iff 0 1 1 1 5 (by simp [celFuel1, agmSteps])).mpr rfl
+
+/-- the value of `cel0` does not depend on the fuel -/
+theorem cel0_fuel_irrelevant (n k : ℕ) (kc p c s v : ℝ) (h : cel0 n kc p c s = some v) :
+    cel0 (n + k) kc p c s = some v :=
+  cel0_fuel_mono n k kc p c s v h
 
 end MagpyVerif.C15
